@@ -1412,7 +1412,7 @@ Section MechReach.
   Lemma run_task_ok : forall fuel tk x, RX x -> res_ok (run_task prog cm B fm chk grd true cta fuel tk x).
   Proof.
     induction fuel as [|fuel IH]; intros tk x Hx; simpl; [exact I|].
-    destruct tk as [l env|s env|env w|k f env|ts src].
+    destruct tk as [l env|s env|env w|k f env|ts src|m segs fenv between env].
     - destruct l as [|s rest]; [exact Hx|].
       pose proof (IH (TkExec1 s env) x Hx) as H.
       destruct (run_task prog cm B fm chk grd true cta fuel (TkExec1 s env) x); simpl in *; auto.
@@ -1457,6 +1457,22 @@ Section MechReach.
         pose proof (IH (TkExec body ([] :: env)) x1 H1) as Hb.
         destruct (run_task prog cm B fm chk grd true cta fuel (TkExec body ([] :: env)) x1); simpl in *; auto.
         apply bind_s_ok; [apply do_step_ok; auto|]. intros x3 _ H3. exact H3.
+      + exact I.
+      + apply get_global_ok; [assumption|]. intros x1 _ H1.
+        assert (Hk : forall x2 u, RX x2 ->
+                  res_ok (match u with
+                          | VFn m key =>
+                            match find_fn prog key with
+                            | Some body => run_task prog cm B fm chk grd true cta fuel (TkGen m (split_yield body) [[]] between env) x2
+                            | None => RIll "no such function"
+                            end
+                          | _ => RIll "not a function"
+                          end)).
+        { intros x2 u H2. destruct u; simpl; auto. destruct (find_fn prog f0); simpl; auto. }
+        destruct (N.eqb a 0).
+        * apply get_global_ok; [assumption|]. intros x2 u H2. apply Hk; auto.
+        * apply resolve_ok; [assumption|]. intros x2 w H2. destruct w; simpl; auto.
+          apply bind_s_ok; [apply do_step_ok; auto|]. intros x3 o H3. destruct o; simpl; auto.
     - destruct w; simpl; auto.
       destruct (find_fn prog f) as [body|]; simpl; auto.
       apply bind_s_ok; [apply do_step_ok; auto|]. intros x1 _ H1.
@@ -1481,6 +1497,13 @@ Section MechReach.
         - apply bind_s_ok; [apply do_step_ok; auto|]. intros x1 _ H1. exact H1.
         - apply bind_s_ok; [apply do_step_ok; auto|]. intros x1 _ H1. exact H1. }
       destruct (match t with TStmt s => _ | TDef v n => _ | TFn f _ => _ end); simpl in *; auto.
+    - destruct segs as [|seg rest]; [exact Hx|].
+      apply bind_s_ok; [apply do_step_ok; auto|]. intros x1 _ H1.
+      pose proof (IH (TkExec seg fenv) x1 H1) as Hb.
+      destruct (run_task prog cm B fm chk grd true cta fuel (TkExec seg fenv) x1) as [fenv' x2|h e x2|e x2| |why]; simpl in *; auto.
+      apply bind_s_ok; [apply do_step_ok; auto|]. intros x3 _ H3.
+      pose proof (IH (TkExec between ([] :: env)) x3 H3) as Hc.
+      destruct (run_task prog cm B fm chk grd true cta fuel (TkExec between ([] :: env)) x3) as [env' x4|h e x4|e x4| |why]; simpl in *; auto.
   Qed.
 
   Theorem mech_final_state_reachable fuel st :
